@@ -275,6 +275,7 @@ pub fn generate_query_iter_destroy(''', ['C05']),
                             // SAFETY: We guarantee that the storage is valid up to self.len.
                             slice.slice_mut(self.capacity)""", ['C03', 'C06']),
     ('borrow_component_mut_wrong_row', ST, 'slice.slice_mut(self.source.len).get_unchecked_mut(self.index)', 'slice.slice_mut(self.source.len).get_unchecked_mut(self.source.len - 1 - self.index)', ['C02']),
+    ('iter_borrow_mut_row_zero', 'macros/src/generate/query.rs', 'true => quote!(&mut archetype.borrow_slice_mut::<#ident>()[idx]),', 'true => quote!(&mut archetype.borrow_slice_mut::<#ident>()[0]),', ['C02']),
 ]
 
 
